@@ -626,6 +626,10 @@ func (f *FS) Image(dst string, ev *Event, tear int64) error {
 	if ev == nil {
 		return nil
 	}
+	// whatever modifies a file of the image below gives it a real modification time (2026, with an order that
+	// depends on the machine's load); code under test compares mtimes (FileStore.Open), so such files are
+	// re-stamped with the simulated clock
+	defer RestampReal(dst, f.now())
 	p := filepath.Join(dst, ev.Path)
 	switch ev.Op {
 	case "write", "writeat":
@@ -672,6 +676,28 @@ func (f *FS) Image(dst string, ev *Event, tear int64) error {
 		return err
 	}
 	return nil
+}
+
+// RestampReal gives every file under dir whose modification time comes from the real clock (the bubble's clock
+// starts in 2000 and runs for minutes) the time t.
+func RestampReal(dir string, t time.Time) {
+	limit := time.Date(2010, 1, 1, 0, 0, 0, 0, time.UTC)
+	filepath.WalkDir(dir, func(path string, d fs.DirEntry, err error) error {
+		if err != nil || d.IsDir() {
+			return nil
+		}
+		if info, err := d.Info(); err == nil && info.ModTime().After(limit) {
+			os.Chtimes(path, t, t)
+		}
+		return nil
+	})
+}
+
+func (f *FS) now() time.Time {
+	if f.Now != nil {
+		return f.Now()
+	}
+	return time.Now()
 }
 
 // CopyTree copies a directory tree, keeping holes of sparse files and mtimes.
